@@ -8,7 +8,9 @@
 (* judgement is made here, by TLC evaluating the operators of Algebra.tla. *)
 (*                                                                         *)
 (* line kinds (field k):                                                   *)
-(*  rot     word, vs, q, res, seq, ex      quaternion built along a word   *)
+(*  rot     word, vs, q, res, seq, arr, ex quaternion built along a word   *)
+(*          (arr: the same vectors through Quaternion.RotateArray; also in *)
+(*          rotax / rotq lines)                                            *)
 (*  rotax   ax, c2, sg, vs, q, res, ex     FromTheta about a lattice axis  *)
 (*  rotq    axis, cn, sn, hy, vs, q, res, ex  FromTheta, rational sin/cos  *)
 (*          (res, seq in units of 1/q; q chosen by the harness so that     *)
@@ -26,6 +28,16 @@
 (*  res     law, res, mag, nan             a law relating two real         *)
 (*                                         computations (residual band)    *)
 (*  boxreal lo, hi, pts, pc, qs, qc, cp, nan   seeded real boxes (2^-16)   *)
+(*                                                                         *)
+(* Binary magnitude (round 2): every line also carries the exponents of its  *)
+(* case (all zero for the cases at magnitude 1): inputs were mantissa *      *)
+(* 2^exponent, outputs are mantissas in the unit 2^exponent declared by the  *)
+(* case.  rot/rotax/rotq: ve, ae, ru; mat1: re, ce, ae, du, iu, ve, mu;      *)
+(* mat2: ea, eba, ebm, au, pu; trs/mesh: te, se, ve, ru; box*: be; res /     *)
+(* boxreal: e, ue.  UnitsBad checks that the declared units are the ones     *)
+(* Algebra.tla assigns (otherwise Harness.Shape); the mantissas are then     *)
+(* judged by the same exact predicates as at magnitude 1.  "Scaled.*"        *)
+(* count the lines judged at a magnitude other than 1.                       *)
 (*                                                                         *)
 (* State: l (line number), box (the box of the running box history, as     *)
 (* observed after the previous line: the model re-synchronises on the      *)
@@ -48,7 +60,9 @@ Preds == {"C17.QuatRotate", "C17.QuatLength", "C17.QuatCompose", "C17.QuatAxisAn
           "C17.BoxNew", "C17.BoxEncapsulate", "C17.BoxTight", "C17.BoxContains", "C17.BoxClosest",
           "C17.QuatLengthReal", "C17.QuatComposeReal", "C17.QuatAxisFixed", "C17.RotationToReal", "C17.RotationToNear",
           "C17.MatInverseReal", "C17.MatMulAssoc", "C17.MatDetMul", "C17.MatAddReal",
-          "C17.TRSReal", "C17.MeshReal", "C17.BoxReal", "Harness.Shape"}
+          "C17.TRSReal", "C17.MeshReal", "C17.BoxReal", "Harness.Shape",
+          "Scaled.rot", "Scaled.rotax", "Scaled.rotq", "Scaled.mat1", "Scaled.mat1inv", "Scaled.mat2", "Scaled.trs",
+          "Scaled.mesh", "Scaled.box", "Scaled.real"}
 
 NoBox == Box(<<1, 1, 1>>, <<0, 0, 0>>)
 
@@ -64,8 +78,9 @@ RotBad(ln, m, h) ==
 LenBad(ln) ==
     ~AllSmall(ln.res) \/ \E i \in DOMAIN ln.vs : V3Len2(ln.res[i]) # ln.q * ln.q * V3Len2(ln.vs[i])
 
+\* arr: the same vectors through Quaternion.RotateArray (an API variant of Rotate) must give the same images
 JudgeRot(ln) ==
-    [bad |-> If(RotBad(ln, WordMat(ln.word), 1), "C17.QuatRotate")
+    [bad |-> If(RotBad(ln, WordMat(ln.word), 1) \/ ln.arr # ln.res, "C17.QuatRotate")
              \cup If(LenBad(ln), "C17.QuatLength")
              \cup If(~ln.ex \/ ln.seq # ln.res, "C17.QuatCompose"),
      ex |-> {"C17.QuatRotate", "C17.QuatLength"} \cup If(Len(ln.word) >= 2, "C17.QuatCompose")]
@@ -73,14 +88,15 @@ JudgeRot(ln) ==
 JudgeRotAx(ln) ==
     LET ms == RotAboutSet(ln.ax, ln.c2, ln.sg) IN
     IF Cardinality(ms) # 1 THEN [bad |-> {"Harness.Shape"}, ex |-> {}]
-    ELSE [bad |-> If(RotBad(ln, CHOOSE m \in ms : TRUE, 1), "C17.QuatAxisAngle") \cup If(LenBad(ln), "C17.QuatLength"),
-          ex |-> {"C17.QuatAxisAngle", "C17.QuatLength"}]
+    ELSE [bad |-> If(RotBad(ln, CHOOSE m \in ms : TRUE, 1), "C17.QuatAxisAngle") \cup If(LenBad(ln), "C17.QuatLength")
+                  \cup If(ln.arr # ln.res, "C17.QuatRotate"),
+          ex |-> {"C17.QuatAxisAngle", "C17.QuatLength", "C17.QuatRotate"}]
 
 JudgeRotQ(ln) ==
     IF ln.cn * ln.cn + ln.sn * ln.sn # ln.hy * ln.hy THEN [bad |-> {"Harness.Shape"}, ex |-> {}]
     ELSE [bad |-> If(~AllSmall(ln.res) \/ RotBad(ln, RotQ(ln.axis, ln.cn, ln.sn, ln.hy), ln.hy), "C17.QuatAxisAngle")
-                  \cup If(LenBad(ln), "C17.QuatLength"),
-          ex |-> {"C17.QuatAxisAngle", "C17.QuatLength"}]
+                  \cup If(LenBad(ln), "C17.QuatLength") \cup If(ln.arr # ln.res, "C17.QuatRotate"),
+          ex |-> {"C17.QuatAxisAngle", "C17.QuatLength", "C17.QuatRotate"}]
 
 \* r = round(4096 * RotationTo(a^,b^).Rotate(a^)) must point along b and have length 4096 (coarse, all
 \* integer); res = (that vector - b^) * 10^12 must vanish up to relative 1e-9 (fine)
@@ -188,7 +204,28 @@ JudgeBoxReal(ln) ==
                     /\ \A k \in 1..3 : Abs(ln.cp[i][k] - BoxClamp(ob, ln.qs[i])[k]) <= Tol
     IN [bad |-> If(~ok, "C17.BoxReal"), ex |-> {"C17.BoxReal"}]
 
-Judge(ln) ==
+(* ------------------------- binary magnitude: units ------------------------ *)
+LineUsesS(ln) == IF ln.k = "trs" THEN ln.ctor \in {"New", "Scale"} ELSE ln.op \in {"Scale", "ApplyTRS"}
+UnitsBad(ln) ==
+    CASE ln.k = "rot" -> ln.ae # 0 \/ ln.ru # ScaleRot(ln.ve).ru
+      [] ln.k \in {"rotax", "rotq"} -> ln.ru # ScaleRot(ln.ve).ru
+      [] ln.k = "mat1" -> [ae |-> ln.ae, du |-> ln.du, iu |-> ln.iu, ve |-> ln.ve, mu |-> ln.mu] # ScaleMat1(ln.re, ln.ce)
+      [] ln.k = "mat2" -> [eba |-> ln.eba, au |-> ln.au, pu |-> ln.pu] # ScaleMat2(ln.ea, ln.ebm)
+      [] ln.k \in {"trs", "mesh"} -> [te |-> ln.te, ru |-> ln.ru] # ScaleTRS(ln.se, ln.ve) \/ (~LineUsesS(ln) /\ ln.se # 0)
+      [] ln.k = "res" -> ln.law \in Preds /\ ln.ue # RealDeg(ln.law) * ln.e
+      [] ln.k = "boxreal" -> ln.ue # RealDeg("C17.BoxReal") * ln.e
+      [] OTHER -> FALSE
+AnyNonZero(t) == \E k \in DOMAIN t : t[k] # 0
+ScaledTag(ln, j) ==
+    CASE ln.k \in {"rot", "rotax", "rotq"} -> If(ln.ve # 0 \/ ln.ae # 0, "Scaled." \o ln.k)
+      [] ln.k = "mat1" -> IF AnyNonZero(ln.ae) THEN {"Scaled.mat1"} \cup If("C17.MatInverse" \in j.ex, "Scaled.mat1inv") ELSE {}
+      [] ln.k = "mat2" -> If(ln.ea # 0 \/ ln.ebm # 0, "Scaled.mat2")
+      [] ln.k \in {"trs", "mesh"} -> If(ln.se # 0 \/ ln.ve # 0, "Scaled." \o ln.k)
+      [] ln.k \in {"boxnew", "boxenc"} -> If(ln.be # 0, "Scaled.box")
+      [] ln.k \in {"res", "boxreal"} -> If(ln.e # 0, "Scaled.real")
+      [] OTHER -> {}
+
+JudgeKind(ln) ==
     CASE ln.k = "rot" -> JudgeRot(ln)
       [] ln.k = "rotax" -> JudgeRotAx(ln)
       [] ln.k = "rotq" -> JudgeRotQ(ln)
@@ -202,6 +239,10 @@ Judge(ln) ==
       [] ln.k = "res" -> JudgeRes(ln)
       [] ln.k = "boxreal" -> JudgeBoxReal(ln)
       [] OTHER -> [bad |-> {}, ex |-> {}]
+
+Judge(ln) ==
+    IF UnitsBad(ln) THEN [bad |-> {"Harness.Shape"}, ex |-> {}]
+    ELSE CHOOSE r \in {[bad |-> j.bad, ex |-> j.ex \cup ScaledTag(ln, j)] : j \in {JudgeKind(ln)}} : TRUE
 
 Init == l = 1 /\ box = NoBox /\ cnt = [p \in Preds |-> 0]
 
